@@ -941,6 +941,8 @@ class Session:
         if flags & F["P2SH"] and is_p2sh(self.cur.script):
             self.p2sh_copy = list(self.cur.stack)
         self.phase = 0
+        # BIP342: the initial stack of a tapscript execution is limited to 1000 elements before anything runs
+        self.prefail = 'STACK_SIZE' if (sv == TAPSCRIPT and len(self.cur.stack) > MAX_STACK_SIZE) else None
         if self.cur.at_end() and not self.successor and self.p2sh_copy is None and not commitment_steps:
             # an empty script has nothing to execute: the session is complete from the start
             self.done = True
@@ -967,6 +969,9 @@ class Session:
         assert not self.done
         c = self.cur
         c.sighashes = []
+        if self.prefail:
+            code, self.prefail = self.prefail, None
+            return ('fail', code, 'setup')
         if self.commitment_left > 0:
             self.commitment_left -= 1
             return ('ok', 'commit')
